@@ -281,3 +281,34 @@ Example C11_htpasswd_rule_after_a_rejected_one_nonvacuous :
              exists g2, C08_Model.get_matcher_gen false [(1%N, damaged)] C08_Model.g0 1%N 1%N = (C08_Model.RErr, g2, None) /\
                         fst (fst (C08_Model.get_matcher_gen false [(1%N, good)] g2 1%N 1%N)) = C08_Model.RHang.
 Proof. eexists. split; [vm_compute; reflexivity|]. split; [vm_compute; reflexivity|]. eexists. split; vm_compute; reflexivity. Qed.
+
+(* ---- whole files of several sites; the same directive line in effect more than once within one load ----
+   The oracle instance of CConfSites: the blocks are set up in order, each does what it does as a file of its own,
+   the first rejected one ends the load, in BOTH modes.  A line that is in effect n+1 times (written in several
+   blocks, or through a snippet imported by several sites) is accepted exactly when it is accepted once: being in
+   effect more than once within a load neither crashes nor changes the answer.  The harness holds the real
+   ValidateAndExecuteDirectives against this for every registered directive (the line twice in one block, in two and
+   three blocks, through a snippet imported by two sites / twice by one site / next to the site's own line) and for
+   files of two and three sites mixing directives, own lines and shared snippets. *)
+Theorem C11_predict_sites_first_rejected :
+  forall cbs persite, predict_sites cbs persite = first_rejected persite.
+Proof. exact predict_sites_first_rejected. Qed.
+Print Assumptions C11_predict_sites_first_rejected.
+
+Theorem C11_predict_sites_mode_independent :
+  forall persite, predict_sites false persite = predict_sites true persite.
+Proof. exact predict_sites_mode_independent. Qed.
+Print Assumptions C11_predict_sites_mode_independent.
+
+Theorem C11_sites_accepted_iff_each_accepted :
+  forall cbs persite, predict_sites cbs persite = 0%N <-> Forall (fun c => c = 0%N) persite.
+Proof. exact predict_sites_accepted_iff. Qed.
+Print Assumptions C11_sites_accepted_iff_each_accepted.
+
+Theorem C11_same_line_in_every_site_answers_as_once :
+  forall cbs c n, predict_sites cbs (repeat c (S n)) = c.
+Proof. exact predict_sites_same_line. Qed.
+Print Assumptions C11_same_line_in_every_site_answers_as_once.
+Example C11_same_line_in_every_site_answers_as_once_nonvacuous :
+  predict_sites true [0%N; 0%N; 0%N] = 0%N /\ predict_sites false [0%N; 1%N; 0%N] = 1%N.
+Proof. vm_compute. repeat split; reflexivity. Qed.
